@@ -133,6 +133,8 @@ type simRun struct {
 	digests map[uint64]struct{}
 	lastDigest uint64
 	histStats [3]int
+	target    string // property the check is deciding ("": stop at the first violation of any)
+	incid     []*violation
 	dbgOn bool
 	dbgF  func(string)
 
@@ -157,6 +159,20 @@ func (run *simRun) violate(prop, oracle, sig, format string, a ...interface{}) {
 	}
 	run.tape.Frozen++
 	defer func() { run.tape.Frozen-- }()
+	if run.target != "" && prop != run.target && oracle != "panic" && oracle != "deadlock" && prop != "C17" {
+		// a check decides its own property: violations of other properties are recorded
+		// (once per signature) and the run goes on, so that the property's own symptoms
+		// are still reached when another symptom of the same defect comes first
+		for _, v := range run.incid {
+			if v.Prop == prop && v.Sig == sig {
+				return
+			}
+		}
+		if len(run.incid) < 8 {
+			run.incid = append(run.incid, &violation{prop, oracle, sig, fmt.Sprintf(format, a...), run.sim.Steps, run.sim.Now})
+		}
+		return
+	}
 	run.viol = &violation{prop, oracle, sig, fmt.Sprintf(format, a...), run.sim.Steps, run.sim.Now}
 	run.stop = true
 }
@@ -914,10 +930,17 @@ func (run *simRun) onPanic() {
 			run.stop = true
 			return
 		}
-		sig := "panic:" + panicSite(p.Stack) + ":" + firstLine(msg)
+		site := panicSite(p.Stack)
+		sig := "panic:" + site + ":" + firstLine(msg)
 		who := "harness"
 		if ni != nil {
 			who = ni.String()
+		}
+		if run.target == "C09" && strings.HasPrefix(site, "log.(") && strings.Contains(msg, "invalid memory address") {
+			// a read through a log view whose segment has been unmapped: compaction or an
+			// installed snapshot invalidated log data somebody was still reading
+			run.violate("C09", "unmapped_log_read", "unmapped_log_read:"+site, "goroutine %v of %s read log memory that had been unmapped: %s\n%s", p.G, who, msg, trimStack(p.Stack))
+			continue
 		}
 		run.violate("C15", "panic", sig, "goroutine %v of %s panicked: %s\n%s", p.G, who, msg, trimStack(p.Stack))
 	}
@@ -980,6 +1003,29 @@ func (run *simRun) onStuck() {
 		return
 	}
 	desc := run.sim.Describe()
+	if run.phase == "shutdown" {
+		// every node has returned from Serve (or was fenced): what is left are goroutines the
+		// nodes leaked, blocked for good. That is no property of the list; the run is complete.
+		leftover := true
+		for _, g := range live {
+			ni, _ := func() (*nodeInc, bool) {
+				if g.NC == nil {
+					return nil, false
+				}
+				n, ok := g.NC.User.(*nodeInc)
+				return n, ok
+			}()
+			if ni == nil || !(ni.dead || ni.exited) {
+				leftover = false
+			}
+		}
+		if leftover {
+			run.st.Reach["leaked_goroutines"] += len(live)
+			run.phase = "done"
+			run.finalChecks()
+			return
+		}
+	}
 	// a stuck state with live (non-fenced) node goroutines is a deadlock of the system under test
 	for _, g := range live {
 		if g.NC != nil && !g.NC.Dead {
